@@ -147,13 +147,28 @@ func (e *Exec) ratFinish(num *Term, den *big.Int, inexact bool) Value {
 		}
 		return &Rat{Num: e.tf.Int(r.Num()), Den: new(big.Int).Set(r.Denom()), Inexact: true}
 	}
+	// cancel a constant factor of the numerator against the denominator
+	if num.Op == "*" && num.Args[0].IsConst() && den.Cmp(bigOne) > 0 {
+		g := new(big.Int).GCD(nil, nil, new(big.Int).Abs(num.Args[0].IV), den)
+		if g.Cmp(bigOne) > 0 {
+			num = e.tf.Mul(e.tf.Int(new(big.Int).Div(num.Args[0].IV, g)), num.Args[1])
+			den = new(big.Int).Div(den, g)
+		}
+	}
 	if !inexact {
 		// representable if den is a power of two (<= 2^1074) and |num| < 2^53
 		ok := isPow2(den) && den.BitLen() <= 1000 && num.lo != nil && num.hi != nil &&
 			new(big.Int).Abs(num.lo).Cmp(two53) < 0 && new(big.Int).Abs(num.hi).Cmp(two53) < 0
 		if !ok {
 			inexact = true
-			e.note("float operation whose exactness could not be established by intervals (value marked inexact)")
+			lo, hi := "?", "?"
+			if num.lo != nil {
+				lo = num.lo.String()
+			}
+			if num.hi != nil {
+				hi = num.hi.String()
+			}
+			e.note(fmt.Sprintf("float operation whose exactness could not be established by intervals (value marked inexact) in %s: num in [%s,%s] den %s", e.curFn, lo, hi, den.String()))
 		}
 	}
 	return &Rat{Num: num, Den: den, Inexact: inexact}
@@ -197,6 +212,13 @@ func (e *Exec) ratBin(op token.Token, x, y Value) Value {
 		// (a.Num/a.Den) / (bn/b.Den) = a.Num*b.Den / (a.Den*bn)
 		num := f.Mul(a.Num, f.Int(b.Den))
 		den := new(big.Int).Mul(a.Den, b.Num.IV)
+		// divide out the odd part of the denominator when the numerator is syntactically a multiple of it
+		if odd := oddPart(new(big.Int).Abs(den)); odd.Cmp(bigOne) > 0 {
+			if q, ok := divExact(f, num, odd); ok {
+				num = q
+				den = new(big.Int).Div(den, odd)
+			}
+		}
 		// reduce constant factors between b.Den and den
 		g := new(big.Int).GCD(nil, nil, b.Den, new(big.Int).Abs(den))
 		if g.Cmp(bigOne) > 0 {
@@ -944,4 +966,49 @@ func bmin2(a, b *big.Int) *big.Int {
 		return b
 	}
 	return bmin(a, b)
+}
+
+func oddPart(d *big.Int) *big.Int {
+	o := new(big.Int).Set(d)
+	for o.Sign() != 0 && o.Bit(0) == 0 {
+		o.Rsh(o, 1)
+	}
+	return o
+}
+
+// divExact returns t/d if t is syntactically a multiple of d (linear combinations, ite).
+func divExact(f *TF, t *Term, d *big.Int) (*Term, bool) {
+	switch t.Op {
+	case "const":
+		q, r := new(big.Int).QuoRem(t.IV, d, new(big.Int))
+		if r.Sign() == 0 {
+			return f.Int(q), true
+		}
+	case "+", "-":
+		a, ok1 := divExact(f, t.Args[0], d)
+		b, ok2 := divExact(f, t.Args[1], d)
+		if ok1 && ok2 {
+			if t.Op == "+" {
+				return f.Add(a, b), true
+			}
+			return f.Sub(a, b), true
+		}
+	case "neg":
+		if a, ok := divExact(f, t.Args[0], d); ok {
+			return f.Neg(a), true
+		}
+	case "*":
+		for i := 0; i < 2; i++ {
+			if a, ok := divExact(f, t.Args[i], d); ok {
+				return f.Mul(a, t.Args[1-i]), true
+			}
+		}
+	case "ite":
+		a, ok1 := divExact(f, t.Args[1], d)
+		b, ok2 := divExact(f, t.Args[2], d)
+		if ok1 && ok2 {
+			return f.Ite(t.Args[0], a, b), true
+		}
+	}
+	return nil, false
 }
